@@ -117,7 +117,7 @@ func specResult(root *model.Node, op string) string {
 		return model.Render(f, model.DefaultBranch)
 	case "json.massive":
 		return f.String()
-	case "walk", "iter", "iter.stored", "walk.massive":
+	case "walk", "iter", "iter.stored", "walk.massive", "walk.reentrant":
 		var sb strings.Builder
 		for _, r := range model.Rows(f, model.DefaultBranch) {
 			fmt.Fprintf(&sb, "%s|%s|%s|%d|%s|%v\n", r.Row, r.Branch, r.Name, r.Level, r.Path, r.HasChild)
@@ -253,28 +253,75 @@ func (t *liveTree) runOp(op, tmp string) string {
 	case "walk.massive":
 		var mu sync.Mutex
 		var sb strings.Builder
+		var keptM []*gtree.WalkerNode
 		o := Guard(func() error {
 			return gtree.WalkFromRoot(t.root, func(wn *gtree.WalkerNode) error {
 				mu.Lock()
 				defer mu.Unlock()
 				fmt.Fprintf(&sb, "%s|%s|%s|%d|%s|%v\n", wn.Row(), wn.Branch(), wn.Name(), wn.Level(), wn.Path(), wn.HasChild())
+				keptM = append(keptM, wn)
 				return nil
 			}, gtree.WithMassive(context.Background()))
 		})
 		if o.Panic != nil || o.Err != nil {
 			return "ERR:" + errStr(o.Err) + fmt.Sprint(o.Panic)
 		}
+		var againM strings.Builder
+		for _, wn := range keptM {
+			fmt.Fprintf(&againM, "%s|%s|%s|%d|%s|%v\n", wn.Row(), wn.Branch(), wn.Name(), wn.Level(), wn.Path(), wn.HasChild())
+		}
+		if againM.String() != sb.String() {
+			return "KEPT NODES CHANGED AFTER THE WALK: " + trunc(againM.String(), 200)
+		}
 		return sb.String()
+	case "walk.reentrant":
+		// the callback itself uses the library: it builds another tree, adds to it and renders it
+		// (a user copying or printing while walking). The walk must come back with the usual rows.
+		var sb strings.Builder
+		done := make(chan Outcome, 1)
+		go func() {
+			done <- Guard(func() error {
+				other := gtree.NewRoot("copy")
+				return gtree.WalkFromRoot(t.root, func(wn *gtree.WalkerNode) error {
+					fmt.Fprintf(&sb, "%s|%s|%s|%d|%s|%v\n", wn.Row(), wn.Branch(), wn.Name(), wn.Level(), wn.Path(), wn.HasChild())
+					other.Add(wn.Name())
+					if err := gtree.OutputFromRoot(mon.NewRecWriter(), other); err != nil {
+						return err
+					}
+					return gtree.WalkFromRoot(other, func(*gtree.WalkerNode) error { return nil })
+				})
+			})
+		}()
+		select {
+		case o := <-done:
+			if o.Panic != nil || o.Err != nil {
+				return "ERR:" + errStr(o.Err) + fmt.Sprint(o.Panic)
+			}
+			return sb.String()
+		case <-time.After(20 * time.Second):
+			// twenty seconds for a handful of nodes: the nested call never came back
+			return "THE WALK WHOSE CALLBACK USES THE LIBRARY DID NOT RETURN"
+		}
 	case "walk":
 		var sb strings.Builder
+		var kept []*gtree.WalkerNode
 		o := Guard(func() error {
 			return gtree.WalkFromRoot(t.root, func(wn *gtree.WalkerNode) error {
 				fmt.Fprintf(&sb, "%s|%s|%s|%d|%s|%v\n", wn.Row(), wn.Branch(), wn.Name(), wn.Level(), wn.Path(), wn.HasChild())
+				kept = append(kept, wn)
 				return nil
 			})
 		})
 		if o.Panic != nil || o.Err != nil {
 			return "ERR:" + errStr(o.Err) + fmt.Sprint(o.Panic)
+		}
+		// what the callback kept still describes the visits, in order
+		var again strings.Builder
+		for _, wn := range kept {
+			fmt.Fprintf(&again, "%s|%s|%s|%d|%s|%v\n", wn.Row(), wn.Branch(), wn.Name(), wn.Level(), wn.Path(), wn.HasChild())
+		}
+		if again.String() != sb.String() {
+			return "KEPT NODES CHANGED AFTER THE WALK: " + trunc(again.String(), 200)
 		}
 		return sb.String()
 	case "iter.stored":
@@ -566,6 +613,7 @@ func runC13(c *Ctx) bool {
 		{[]string{"dryrun.massive.x5", "walk"}, L - 3},
 		{[]string{"dryfail", "dryrun.json"}, L - 2}, // a failed dry-run report, then dry-run reports
 		{[]string{"iter.stored", "text.b3"}, L - 2},   // one sequence value ranged over again and again while the tree grows
+		{[]string{"walk.reentrant", "text"}, L - 3},
 	}
 	for _, ps := range passes {
 		var hist []string
@@ -656,7 +704,7 @@ func runC13(c *Ctx) bool {
 	return runC13Concurrent(c)
 }
 
-var c13Ops = []string{"text", "text.b3", "text.b6", "walk", "iter", "json", "walk.massive", "text.massive", "json.massive", "walkfail", "iterbreak", "textfail", "jsonfail", "dryrun", "mkdir", "verify", "mkdirfail", "verifyfail", "dryrun.json", "dryrun.massive.x5", "dryfail", "iter.stored"}
+var c13Ops = []string{"text", "text.b3", "text.b6", "walk", "iter", "json", "walk.massive", "text.massive", "json.massive", "walkfail", "iterbreak", "textfail", "jsonfail", "dryrun", "mkdir", "verify", "mkdirfail", "verifyfail", "dryrun.json", "dryrun.massive.x5", "dryfail", "iter.stored", "walk.reentrant"}
 var c13Names = []string{"a", "b", "c", "A", "B", "x.gz", "d e", "日本", "x/y", "p/q"} // the last two are not path elements: mkdir, verify and dry run must reject the tree, whatever happened to it before
 
 const c13Rejected = "REJECTED: invalid name, nothing created or reported"
